@@ -20,10 +20,13 @@ def _tracked(ty):
 
 
 class EffectAnalysis:
-    def __init__(self, facts, is_effect, closure_invoked_where_created=True, max_states=200000):
-        """is_effect(body, bb, term) -> None | site-description (the call itself is one effect)"""
+    def __init__(self, facts, is_effect, closure_invoked_where_created=True, max_states=200000, compose=None):
+        """is_effect(body, bb, term) -> None | site-description (the call itself is one effect) | (site-description, value).
+        Path effects are composed left to right with `compose` (default: saturating addition of counts; the unit is 0); any
+        finite monoid over small integers can be used, e.g. an abstraction of the word of effects along the path."""
         self.facts = facts
         self.is_effect = is_effect
+        self.compose = compose or (lambda a, b: min(SAT, a + b))
         self.summaries = {}         # (fn name, ctx) -> {(count, rv): witness}
         self.in_progress = set()
         self.closure_invoked = closure_invoked_where_created
@@ -119,7 +122,7 @@ class EffectAnalysis:
                         new_outs = list(outs)      # the closure may also never be invoked
                         for (c0, w0) in outs:
                             for (dc, _rv), w in cs.items():
-                                new_outs.append((min(SAT, c0 + dc), w0 + tuple('%s -> %s' % (s.span, x) for x in w) if dc else w0))
+                                new_outs.append((self.compose(c0, dc), w0 + tuple('%s -> %s' % (s.span, x) for x in w) if dc else w0))
                         outs = _dedupe(new_outs)
                 if val is None:
                     f.pop(tgt.local, None)
@@ -148,7 +151,8 @@ class EffectAnalysis:
                 entries = [(0, None, ())]
                 n = t.callee.name or ''
                 if eff:
-                    entries = [(1, None, ('%s @ %s' % (eff, t.span),))]
+                    eff, val = eff if isinstance(eff, tuple) else (eff, 1)
+                    entries = [(val, None, ('%s @ %s' % (eff, t.span),))]
                 elif callee is not None:
                     cctx = self.ctx_for_call(body, t, callee)
                     cs = self.summary(callee, cctx)
@@ -172,7 +176,7 @@ class EffectAnalysis:
                         else:
                             f2.pop(t.dest.local, None)
                     for c0, w0 in outs:
-                        work.append((t.target, min(SAT, c0 + dc), _freeze(f2), w0 + w))
+                        work.append((t.target, self.compose(c0, dc), _freeze(f2), w0 + w))
                 continue
             # goto / drop / assert
             for s in t.succs():
